@@ -1,2 +1,776 @@
-// Package c13: correspondence harness for property C13 (stub — registers nothing yet).
+// Package c13: outbound channels connect to where the matching inbound channel was bound.
+//
+// Input  : (hosts classes tree)
+//
+//	hosts   := ((hostname (begin end)*)*)                   one Mesos offer per host: its port ranges
+//	classes := ((cname mode (bind*) (connect*))*)           task templates; mode = fairmq | direct
+//	tree    := (A name (bind*) (connect*) tree*)            aggregator role
+//	         | (T name cname hostIdx (bind*) (connect*))    task role, launched on hosts[hostIdx]
+//	bind    := (name transport addressing target global)    "" = field absent in the YAML
+//	connect := (name transport target)
+//
+// Obs    : (launch configure)
+//
+//	launch    := ((path host ((key endpoint)*) ((begin end)*))*)   per task in tree order: role path, host,
+//	             the task's local bind map sorted by key, the port ranges in the Mesos TaskInfo (what ACCEPT carries)
+//	endpoint  := (tcp host port transport) | (ipc path transport)    fresh IPC paths renamed @o2ipc-%N by first appearance
+//	configure := (ok ((chan method address transport)*)*)          per task: chans.<chan>.0.{method,address,transport} of
+//	             the CONFIGURE command the executor would receive, sorted by channel name
+//	           | (err alias_conflict) | (err unmatched) | (err other)
+//
+// What runs: the role tree and the classes are unmarshalled from generated YAML with the repo's own
+// unmarshallers (channel/role/class defaults included), the root is hung under a real ParentAdapter;
+// every task role's descriptor comes from the real GenerateTaskDescriptors; every task is launched by the
+// real makeTaskForMesosResources on a mesos.Offer (tasks of one host share the remaining resources, as in
+// the offer handler) — this is where ports are allocated into Task.localBindMap; then the real
+// Manager.configureTasks runs (bind map, alias de-duplication, BuildPropertyMaps) with a command queue whose
+// send function records the JSON each executor would get instead of calling Mesos.
+// The Lean driver checks the launch section as a monitor (it is environment-determined which ports there are)
+// and predicts the configure section from it.
 package c13
+
+import (
+	"encoding/json"
+	"fmt"
+	"regexp"
+	"sort"
+	"strings"
+	"sync"
+
+	"github.com/AliceO2Group/Control/common/gera"
+	"github.com/AliceO2Group/Control/common/utils/uid"
+	"github.com/AliceO2Group/Control/core/controlcommands"
+	"github.com/AliceO2Group/Control/core/task"
+	"github.com/AliceO2Group/Control/core/task/channel"
+	"github.com/AliceO2Group/Control/core/task/taskclass"
+	"github.com/AliceO2Group/Control/core/workflow"
+	mesos "github.com/mesos/mesos-go/api/v1/lib"
+	"github.com/mesos/mesos-go/api/v1/lib/resources"
+	"github.com/spf13/viper"
+	"gopkg.in/yaml.v3"
+
+	"verifharness/fw"
+	"verifharness/rng"
+	"verifharness/sx"
+)
+
+// ---- YAML rendering ----------------------------------------------------------------
+
+func q(s string) string { return fmt.Sprintf("%q", s) }
+
+func bindYAML(b *strings.Builder, ind string, list *sx.Node) {
+	if list.Len() == 0 {
+		return
+	}
+	fmt.Fprintf(b, "%sbind:\n", ind)
+	for _, c := range list.List {
+		fmt.Fprintf(b, "%s  - name: %s\n%s    type: push\n", ind, q(c.At(0).Str()), ind)
+		if v := c.At(1).Str(); v != "" {
+			fmt.Fprintf(b, "%s    transport: %s\n", ind, q(v))
+		}
+		if v := c.At(2).Str(); v != "" {
+			fmt.Fprintf(b, "%s    addressing: %s\n", ind, q(v))
+		}
+		if v := c.At(3).Str(); v != "" {
+			fmt.Fprintf(b, "%s    target: %s\n", ind, q(v))
+		}
+		if v := c.At(4).Str(); v != "" {
+			fmt.Fprintf(b, "%s    global: %s\n", ind, q(v))
+		}
+	}
+}
+
+func connectYAML(b *strings.Builder, ind string, list *sx.Node) {
+	if list.Len() == 0 {
+		return
+	}
+	fmt.Fprintf(b, "%sconnect:\n", ind)
+	for _, c := range list.List {
+		fmt.Fprintf(b, "%s  - name: %s\n%s    type: pull\n", ind, q(c.At(0).Str()), ind)
+		if v := c.At(1).Str(); v != "" {
+			fmt.Fprintf(b, "%s    transport: %s\n", ind, q(v))
+		}
+		if v := c.At(2).Str(); v != "" {
+			fmt.Fprintf(b, "%s    target: %s\n", ind, q(v))
+		}
+	}
+}
+
+func roleYAML(b *strings.Builder, n *sx.Node, ind string, top bool) {
+	pre, cont := ind+"- ", ind+"  "
+	if top {
+		pre, cont = "", ""
+	}
+	fmt.Fprintf(b, "%sname: %s\n", pre, q(n.At(1).Str()))
+	if n.At(0).Str() == "T" {
+		fmt.Fprintf(b, "%stask:\n%s  load: %s\n", cont, cont, q(n.At(2).Str()))
+		bindYAML(b, cont, n.At(4))
+		connectYAML(b, cont, n.At(5))
+		return
+	}
+	bindYAML(b, cont, n.At(2))
+	connectYAML(b, cont, n.At(3))
+	if n.Len() == 4 {
+		fmt.Fprintf(b, "%sroles: []\n", cont)
+		return
+	}
+	fmt.Fprintf(b, "%sroles:\n", cont)
+	for i := 4; i < n.Len(); i++ {
+		roleYAML(b, n.At(i), cont+"  ", false)
+	}
+}
+
+func classYAML(c *sx.Node) string {
+	var b strings.Builder
+	fmt.Fprintf(&b, "name: %s\ncontrol:\n  mode: %s\ncommand:\n  value: \"true\"\n  user: \"nobody\"\n  shell: true\nwants:\n  cpu: 0.01\n  memory: 1\n",
+		q(c.At(0).Str()), c.At(1).Str())
+	bindYAML(&b, "", c.At(2))
+	connectYAML(&b, "", c.At(3))
+	return b.String()
+}
+
+// ---- running the real thing ---------------------------------------------------------
+
+var setupOnce sync.Once
+
+func setup() {
+	setupOnce.Do(func() {
+		// BuildTaskCommand/BuildPropertyMap hand the.ConfSvc() to the template engine; the
+		// mock backend needs no Consul and is never consulted (no template expressions here).
+		viper.Set("configServiceUri", "mock://")
+	})
+}
+
+var ipcRe = regexp.MustCompile(`@o2ipc-[0-9a-v]{20}`)
+
+type captured struct {
+	mu   sync.Mutex
+	args map[string]map[string]string // taskId -> arguments as serialised for the executor
+}
+
+func (c *captured) send(cmd controlcommands.MesosCommand, rcv controlcommands.MesosCommandTarget) error {
+	raw, err := json.Marshal(cmd) // exactly what schedulerState.sendCommand ships in the MESSAGE call
+	if err != nil {
+		return err
+	}
+	var dec struct {
+		Name      string            `json:"name"`
+		Event     string            `json:"event"`
+		Arguments map[string]string `json:"arguments"`
+	}
+	if err := json.Unmarshal(raw, &dec); err != nil {
+		return err
+	}
+	if dec.Event == "CONFIGURE" {
+		c.mu.Lock()
+		c.args[rcv.TaskId.Value] = dec.Arguments
+		c.mu.Unlock()
+	}
+	return fmt.Errorf("verif: no executor")
+}
+
+func endpointSx(e channel.Endpoint) *sx.Node {
+	switch v := e.(type) {
+	case channel.TcpEndpoint:
+		return sx.L(sx.A("tcp"), sx.A(v.Host), sx.U64(v.Port), sx.A(v.Transport.String()))
+	case channel.IpcEndpoint:
+		return sx.L(sx.A("ipc"), sx.A(v.Path), sx.A(v.Transport.String()))
+	}
+	return sx.L(sx.A("unknown"))
+}
+
+func classify(err error) string {
+	s := err.Error()
+	switch {
+	case strings.Contains(s, "illegal redefinition of global channel alias"):
+		return "alias_conflict"
+	case strings.Contains(s, "could not match target for outbound channel"):
+		return "unmatched"
+	}
+	return "other"
+}
+
+func runImpl(input string) (string, error) {
+	setup()
+	in, err := sx.Parse(input)
+	if err != nil {
+		return "", err
+	}
+	hosts, classes, tree := in.At(0), in.At(1), in.At(2)
+
+	cap := &captured{args: map[string]map[string]string{}}
+	m := task.VerifC13NewManager(cap.send)
+	defer m.VerifC13Stop()
+	for _, c := range classes.List {
+		cl := &taskclass.Class{}
+		y := classYAML(c)
+		if err := yaml.Unmarshal([]byte(y), cl); err != nil {
+			return "", fmt.Errorf("class yaml: %v\n%s", err, y)
+		}
+		m.VerifC13AddClass(c.At(0).Str(), cl)
+	}
+
+	var b strings.Builder
+	roleYAML(&b, tree, "", true)
+	root := workflow.NewAggregatorRole("", nil)
+	if err := yaml.Unmarshal([]byte(b.String()), root); err != nil {
+		return "", fmt.Errorf("role yaml: %v\n%s", err, b.String())
+	}
+	workflow.LinkChildrenToParents(root)
+	envId := uid.New()
+	empty := func() gera.Map[string, string] { return gera.MakeMap[string, string]() }
+	adapter := workflow.NewParentAdapter(func() uid.ID { return envId }, func() uint32 { return 0 },
+		empty, empty, empty, nil)
+	workflow.VerifC13SetParent(root, adapter)
+
+	// host index per task role, in tree order
+	var hostIdx []int
+	var walk func(n *sx.Node)
+	walk = func(n *sx.Node) {
+		if n.At(0).Str() == "T" {
+			hostIdx = append(hostIdx, n.At(3).Int())
+			return
+		}
+		for i := 4; i < n.Len(); i++ {
+			walk(n.At(i))
+		}
+	}
+	walk(tree)
+
+	// one offer per host; tasks of a host share what remains of it
+	type hostState struct {
+		offer     *mesos.Offer
+		remaining mesos.Resources
+	}
+	hs := make([]*hostState, hosts.Len())
+	for i, h := range hosts.List {
+		br := resources.BuildRanges()
+		for _, r := range h.List[1:] {
+			br = br.Span(uint64(r.At(0).Int64()), uint64(r.At(1).Int64()))
+		}
+		res := mesos.Resources{}
+		res.Add1(resources.NewCPUs(64).Resource)
+		res.Add1(resources.NewMemory(65536).Resource)
+		res.Add1(resources.Build().Name(resources.Name("ports")).Ranges(br.Ranges.Sort().Squash()).Resource)
+		off := &mesos.Offer{
+			ID:        mesos.OfferID{Value: fmt.Sprintf("offer-%d", i)},
+			AgentID:   mesos.AgentID{Value: fmt.Sprintf("agent-%d", i)},
+			Hostname:  h.At(0).Str(),
+			Resources: res,
+		}
+		hs[i] = &hostState{offer: off, remaining: mesos.Resources(off.Resources)}
+	}
+
+	ds := root.GenerateTaskDescriptors()
+	if len(ds) != len(hostIdx) {
+		return "", fmt.Errorf("descriptors %d != task roles %d", len(ds), len(hostIdx))
+	}
+	launch := sx.L()
+	var tasks task.Tasks
+	for i, d := range ds {
+		if hostIdx[i] >= len(hs) {
+			return "", fmt.Errorf("bad host index")
+		}
+		h := hs[hostIdx[i]]
+		t, ti, err := m.VerifC13Launch(h.offer, d, h.remaining, fmt.Sprintf("exec-%d", i), envId)
+		if err != nil {
+			return "", err
+		}
+		if t == nil || ti == nil {
+			return sx.L(sx.L(sx.A("launchfail"), sx.I(i)), sx.L(sx.A("err"), sx.A("other"))).String(), nil
+		}
+		// what manager.go does with a successfully deployed task
+		t.GetParent().SetTask(t)
+		tasks = append(tasks, t)
+
+		lbm := t.GetLocalBindMap()
+		keys := make([]string, 0, len(lbm))
+		for k := range lbm {
+			keys = append(keys, k)
+		}
+		sort.Strings(keys)
+		kv := sx.L()
+		for _, k := range keys {
+			kv.Add(sx.L(sx.A(k), endpointSx(lbm[k])))
+		}
+		ports := sx.L()
+		for _, r := range ti.Resources {
+			if r.GetName() == "ports" && r.GetRanges() != nil {
+				for _, rg := range r.GetRanges().GetRange() {
+					ports.Add(sx.L(sx.U64(rg.Begin), sx.U64(rg.End)))
+				}
+			}
+		}
+		launch.Add(sx.L(sx.A(t.GetParentRolePath()), sx.A(t.GetHostname()), kv, ports))
+	}
+
+	var cfg *sx.Node
+	if len(tasks) == 0 {
+		cfg = sx.L(sx.A("err"), sx.A("other"))
+	} else if err := m.VerifC13Configure(envId, tasks); err != nil && len(cap.args) == 0 {
+		cfg = sx.L(sx.A("err"), sx.A(classify(err)))
+	} else {
+		if len(cap.args) != len(tasks) {
+			return "", fmt.Errorf("captured %d CONFIGURE payloads for %d tasks (err=%v)", len(cap.args), len(tasks), err)
+		}
+		per := sx.L()
+		for _, t := range tasks {
+			args := cap.args[t.GetTaskId()]
+			names := map[string]bool{}
+			for k := range args {
+				if strings.HasPrefix(k, "chans.") && strings.HasSuffix(k, ".0.address") {
+					names[strings.TrimSuffix(strings.TrimPrefix(k, "chans."), ".0.address")] = true
+				}
+			}
+			var ns []string
+			for n := range names {
+				ns = append(ns, n)
+			}
+			sort.Strings(ns)
+			tl := sx.L()
+			for _, n := range ns {
+				p := "chans." + n + ".0."
+				tl.Add(sx.L(sx.A(n), sx.A(args[p+"method"]), sx.A(args[p+"address"]), sx.A(args[p+"transport"])))
+			}
+			per.Add(tl)
+		}
+		cfg = sx.L(sx.A("ok"), per)
+	}
+
+	out := sx.L(launch, cfg).String()
+	// fresh IPC paths embed an xid: rename by first appearance
+	seen := map[string]string{}
+	out = ipcRe.ReplaceAllStringFunc(out, func(s string) string {
+		if r, ok := seen[s]; ok {
+			return r
+		}
+		r := fmt.Sprintf("@o2ipc-%%%d", len(seen))
+		seen[s] = r
+		return r
+	})
+	return out, nil
+}
+
+
+// ---- generator -----------------------------------------------------------------------
+
+type chIn struct{ name, transport, addressing, target, global string }
+type chOut struct{ name, transport, target string }
+
+type role struct {
+	agg   bool
+	name  string
+	cls   string
+	host  int
+	bind  []chIn
+	conn  []chOut
+	kids  []*role
+	path  string
+	up    *role
+}
+
+type class struct {
+	name, mode string
+	bind       []chIn
+	conn       []chOut
+}
+
+// inbound and outbound channels draw their names from disjoint pools and every
+// declaration list has distinct names, so channel names are unique within a task
+// (the theorems' namesDistinct); a channel's alias is derived from its name, so
+// aliases are unique within a task as well.
+var inNames = []string{"data", "ctl", "mon", "raw", "sync"}
+var outNames = []string{"in", "feed", "dpl", "src", "aux"}
+var transports = []string{"", "default", "zeromq", "nanomsg", "shmem", "zeromq", "shmem"}
+
+func inSx(c chIn) *sx.Node {
+	return sx.L(sx.A(c.name), sx.A(c.transport), sx.A(c.addressing), sx.A(c.target), sx.A(c.global))
+}
+func outSx(c chOut) *sx.Node { return sx.L(sx.A(c.name), sx.A(c.transport), sx.A(c.target)) }
+func insSx(cs []chIn) *sx.Node {
+	n := sx.L()
+	for _, c := range cs {
+		n.Add(inSx(c))
+	}
+	return n
+}
+func outsSx(cs []chOut) *sx.Node {
+	n := sx.L()
+	for _, c := range cs {
+		n.Add(outSx(c))
+	}
+	return n
+}
+func (r *role) sx() *sx.Node {
+	if !r.agg {
+		return sx.L(sx.A("T"), sx.A(r.name), sx.A(r.cls), sx.I(r.host), insSx(r.bind), outsSx(r.conn))
+	}
+	n := sx.L(sx.A("A"), sx.A(r.name), insSx(r.bind), outsSx(r.conn))
+	for _, k := range r.kids {
+		n.Add(k.sx())
+	}
+	return n
+}
+
+type stats struct {
+	inboundTarget, aliasUse, explicitOut, badOut, aliasOut bool
+}
+
+func genIn(r *rng.R, name string, st *stats, aliasP int) chIn {
+	c := chIn{name: name, transport: rng.Pick(r, transports)}
+	switch x := r.N(100); {
+	case x < 60:
+		c.addressing = "tcp"
+	case x < 92:
+		c.addressing = "ipc"
+	}
+	switch x := r.N(100); {
+	case x < 3:
+		c.target = fmt.Sprintf("tcp://*:%d", 40000+r.N(100))
+		st.inboundTarget = true
+	case x < 5:
+		c.target = "ipc:///tmp/static_" + name
+		st.inboundTarget = true
+	case x < 6:
+		c.target = "bogus"
+		st.inboundTarget = true
+	}
+	if r.N(100) < aliasP {
+		c.global = "g_" + name
+		st.aliasUse = true
+	}
+	return c
+}
+
+func pickDistinct(r *rng.R, pool []string, n int) []string {
+	p := append([]string{}, pool...)
+	rng.Shuffle(r, p)
+	if n > len(p) {
+		n = len(p)
+	}
+	return p[:n]
+}
+
+func genCase(r *rng.R, maxTasks int) fw.Case {
+	st := &stats{}
+	nHosts := r.Range(1, 4)
+	hosts := sx.L()
+	for i := 0; i < nHosts; i++ {
+		h := sx.L(sx.A(fmt.Sprintf("%s%d", rng.Pick(r, []string{"flp", "epn", "qc"}), i+1)))
+		lo := 9000
+		switch r.N(6) {
+		case 0:
+			lo = 8990 // the allocator must skip everything below 9000
+		case 1:
+			lo = 9000 + r.N(500)
+		}
+		if r.P(1, 4) { // fragmented offer
+			h.Add(sx.L(sx.I(lo), sx.I(lo+r.Range(0, 12))), sx.L(sx.I(lo+20), sx.I(lo+90)))
+		} else {
+			h.Add(sx.L(sx.I(lo), sx.I(lo+90)))
+		}
+		cb := 30000 + 100*r.N(3)
+		h.Add(sx.L(sx.I(cb), sx.I(cb+60)))
+		hosts.Add(h)
+	}
+
+	nClasses := r.Range(1, 3)
+	classes := make([]*class, nClasses)
+	for i := range classes {
+		c := &class{name: fmt.Sprintf("cls%d", i), mode: rng.Pick(r, []string{"fairmq", "fairmq", "direct"})}
+		for _, n := range pickDistinct(r, inNames, r.N(4)) {
+			c.bind = append(c.bind, genIn(r, n, st, 12))
+		}
+		for _, n := range pickDistinct(r, outNames, r.N(3)) {
+			o := chOut{name: n, transport: rng.Pick(r, transports)}
+			if r.P(1, 3) {
+				o.target = "tcp://ignored:1" // the class loader drops template-level targets
+			}
+			c.conn = append(c.conn, o)
+		}
+		classes[i] = c
+	}
+
+	// tree
+	nTasks := r.Range(1, maxTasks)
+	var tasks []*role
+	var aggs []*role
+	root := &role{agg: true, name: "root", path: "root"}
+	aggs = append(aggs, root)
+	id := 0
+	for len(tasks) < nTasks {
+		parent := rng.Pick(r, aggs)
+		depth := strings.Count(parent.path, ".")
+		id++
+		if depth < 3 && r.P(1, 4) {
+			a := &role{agg: true, name: fmt.Sprintf("a%d", id), up: parent}
+			a.path = parent.path + "." + a.name
+			parent.kids = append(parent.kids, a)
+			aggs = append(aggs, a)
+			continue
+		}
+		t := &role{name: fmt.Sprintf("t%d", id), cls: rng.Pick(r, classes).name, host: r.N(nHosts), up: parent}
+		t.path = parent.path + "." + t.name
+		parent.kids = append(parent.kids, t)
+		tasks = append(tasks, t)
+	}
+	// an aggregator without children is pruned by the loader; give each one a task
+	for _, a := range aggs {
+		if len(a.kids) == 0 {
+			id++
+			t := &role{name: fmt.Sprintf("t%d", id), cls: rng.Pick(r, classes).name, host: r.N(nHosts), up: a}
+			t.path = a.path + "." + t.name
+			a.kids = append(a.kids, t)
+			tasks = append(tasks, t)
+		}
+	}
+	// role-level inbound declarations
+	for _, a := range aggs {
+		if r.P(1, 6) {
+			for _, n := range pickDistinct(r, inNames, r.Range(1, 2)) {
+				a.bind = append(a.bind, genIn(r, n, st, 5))
+			}
+		}
+	}
+	for _, t := range tasks {
+		if r.P(1, 3) {
+			for _, n := range pickDistinct(r, inNames, r.Range(1, 2)) {
+				t.bind = append(t.bind, genIn(r, n, st, 15))
+			}
+		}
+	}
+	classOf := func(n string) *class {
+		for _, c := range classes {
+			if c.name == n {
+				return c
+			}
+		}
+		return nil
+	}
+	// what each task will advertise (nearest role declaration, else the class's)
+	var keys, aliases []string
+	for _, t := range tasks {
+		eff := map[string]chIn{}
+		for _, c := range classOf(t.cls).bind {
+			eff[c.name] = c
+		}
+		var chain []*role
+		for x := t; x != nil; x = x.up {
+			chain = append(chain, x)
+		}
+		for i := len(chain) - 1; i >= 0; i-- {
+			for _, c := range chain[i].bind {
+				eff[c.name] = c
+			}
+		}
+		for _, n := range inNames {
+			if c, ok := eff[n]; ok {
+				keys = append(keys, t.path+":"+n)
+				if c.global != "" {
+					aliases = append(aliases, "::"+c.global)
+				}
+			}
+		}
+	}
+	target := func() string {
+		x := r.N(100)
+		switch {
+		case x < 66 && len(keys) > 0:
+			return rng.Pick(r, keys)
+		case x < 78 && len(aliases) > 0:
+			st.aliasOut = true
+			return rng.Pick(r, aliases)
+		case x < 86:
+			st.explicitOut = true
+			return fmt.Sprintf("tcp://%s:%d", rng.Pick(r, []string{"far.host", "10.0.0.7", "flp1"}), 1000+r.N(60000))
+		case x < 90:
+			st.explicitOut = true
+			return "ipc://@named-" + fmt.Sprint(r.N(5))
+		case x < 93:
+			st.badOut = true
+			return rng.Pick(r, tasks).path + ":" + rng.Pick(r, []string{"nochan", "", "data2"})
+		case x < 95:
+			st.badOut = true
+			return rng.Pick(r, tasks).path // path without a channel
+		case x < 97:
+			st.badOut = true
+			return "::" + rng.Pick(r, []string{"g_none", "", "data"})
+		case x < 98:
+			st.badOut = true
+			return ""
+		case len(keys) > 0:
+			return rng.Pick(r, keys)
+		}
+		st.badOut = true
+		return "root.nowhere:data"
+	}
+	hasConn := func(x *role, n string) bool {
+		for _, c := range x.conn {
+			if c.name == n {
+				return true
+			}
+		}
+		return false
+	}
+	// role-level outbound declarations: mostly complete the class's connect list with targets
+	for _, t := range tasks {
+		for _, cc := range classOf(t.cls).conn {
+			if !r.P(9, 10) {
+				continue // left without a target: this configuration must fail
+			}
+			at := t
+			if r.P(1, 6) && t.up != nil {
+				at = t.up
+			}
+			if !hasConn(at, cc.name) {
+				at.conn = append(at.conn, chOut{name: cc.name, transport: rng.Pick(r, transports), target: target()})
+			}
+		}
+		if r.P(1, 3) {
+			n := rng.Pick(r, outNames)
+			if !hasConn(t, n) {
+				t.conn = append(t.conn, chOut{name: n, transport: rng.Pick(r, transports), target: target()})
+			}
+		}
+	}
+	if r.P(1, 8) {
+		a := rng.Pick(r, aggs)
+		n := rng.Pick(r, outNames)
+		if !hasConn(a, n) {
+			a.conn = append(a.conn, chOut{name: n, transport: rng.Pick(r, transports), target: target()})
+		}
+	}
+
+	cl := sx.L()
+	for _, c := range classes {
+		cl.Add(sx.L(sx.A(c.name), sx.A(c.mode), insSx(c.bind), outsSx(c.conn)))
+	}
+	tags := []string{fmt.Sprintf("tasks=%d", len(tasks)), fmt.Sprintf("hosts=%d", nHosts)}
+	for k, v := range map[string]bool{"inbound-target": st.inboundTarget, "alias-declared": st.aliasUse,
+		"explicit-outbound": st.explicitOut, "bad-outbound-target": st.badOut, "alias-outbound": st.aliasOut} {
+		if v {
+			tags = append(tags, k)
+		}
+	}
+	sort.Strings(tags)
+	return fw.Case{Input: sx.L(hosts, cl, root.sx()).String(), Tags: tags}
+}
+
+func generate(tier string, r *rng.R) []fw.Case {
+	n, maxTasks := 10000, 6
+	if tier == "thorough" {
+		n, maxTasks = 150000, 10
+	}
+	cs := make([]fw.Case, 0, n)
+	for i := 0; i < n; i++ {
+		cs = append(cs, genCase(r.Fork(), maxTasks))
+	}
+	return cs
+}
+
+// non-trivial: the configuration went through for at least two tasks and at least one
+// outbound channel was resolved against the bind map (address not equal to a declared explicit target),
+// or it was rejected for a reason the property names.
+func nontrivial(input, obs string) bool {
+	o, err := sx.Parse(obs)
+	if err != nil || o.Len() != 2 {
+		return false
+	}
+	if o.At(0).Len() < 2 {
+		return false
+	}
+	cfg := o.At(1)
+	if cfg.At(0).Str() == "err" {
+		return cfg.At(1).Str() == "alias_conflict" || cfg.At(1).Str() == "unmatched"
+	}
+	connects, binds := 0, 0
+	for _, t := range cfg.At(1).List {
+		for _, e := range t.List {
+			if e.At(1).Str() == "connect" {
+				connects++
+			} else {
+				binds++
+			}
+		}
+	}
+	return connects >= 1 && binds >= 1
+}
+
+// shrink: drop one role, one class-level or role-level channel declaration.
+func shrinkCands(input string) []string {
+	in, err := sx.Parse(input)
+	if err != nil {
+		return nil
+	}
+	var out []string
+	emit := func() { out = append(out, in.String()) }
+	// drop the i-th element of a list node, emit, restore
+	drop := func(n *sx.Node, i int) {
+		old := n.List
+		n.List = append(append([]*sx.Node{}, old[:i]...), old[i+1:]...)
+		emit()
+		n.List = old
+	}
+	var walk func(n *sx.Node)
+	walk = func(n *sx.Node) {
+		if n.At(0).Str() == "T" {
+			for _, l := range []*sx.Node{n.At(4), n.At(5)} {
+				for i := range l.List {
+					drop(l, i)
+				}
+			}
+			return
+		}
+		for _, l := range []*sx.Node{n.At(2), n.At(3)} {
+			for i := range l.List {
+				drop(l, i)
+			}
+		}
+		for i := 4; i < n.Len(); i++ {
+			if n.Len() > 5 || n.At(i).At(0).Str() == "A" {
+				drop(n, i)
+			}
+		}
+		for i := 4; i < n.Len(); i++ {
+			walk(n.At(i))
+		}
+	}
+	walk(in.At(2))
+	for _, c := range in.At(1).List {
+		for _, l := range []*sx.Node{c.At(2), c.At(3)} {
+			for i := range l.List {
+				drop(l, i)
+			}
+		}
+	}
+	return out
+}
+
+func init() {
+	fw.Register(&fw.Property{
+		ID:         "C13",
+		Generate:   generate,
+		RunImpl:    runImpl,
+		Nontrivial: nontrivial,
+		Rule: "random workflows: 1..6 (thorough 1..10) task roles under aggregators up to depth 4 on 1..4 hosts (one Mesos offer each: " +
+			"contiguous or fragmented port ranges, some starting below 9000), 1..3 task templates (fairmq/direct) with 0..3 bind and 0..2 connect " +
+			"declarations, bind/connect declarations at aggregator and task-role level overriding the template's, all four transports or none, " +
+			"tcp/ipc/absent addressing, global aliases (shared templates make them collide), inbound channels with static/invalid targets, outbound " +
+			"targets = advertised path:channel 66% / alias 12% / explicit tcp:// ipc:// 12% / near-miss, unknown or empty 10%, template-level connect " +
+			"left without a role-level target 10%; every case runs the real YAML loaders, GenerateTaskDescriptors, makeTaskForMesosResources and " +
+			"configureTasks; non-trivial = >=2 tasks launched and (configuration sent with >=1 bind and >=1 connect entry, or rejected as " +
+			"unmatched / alias conflict); distinct by input text",
+		Shrink:  shrinkCands,
+		Workers: 8,
+		TrustedBase: []string{
+			"harness/props/c13 (YAML rendering of roles/classes, mesos.Offer construction, JSON capture of the CONFIGURE command, IPC path renaming)",
+			"core/task/verif_hook_c13.go, core/workflow/verif_hook_c13.go (wiring only: Manager without Mesos, access to makeTaskForMesosResources/configureTasks/setParent)",
+			"Driver/C13 parsing incl. YAML defaulting of absent transport/addressing, launch monitor",
+		},
+		Assumptions: []string{
+			"targets and aliases are plain strings at CONFIGURE time (workflow template processing has already run)",
+			"the tasks handed to configureTasks are the environment's task roles in tree order, each launched once",
+			"task classes are FAIRMQ or DIRECT (BASIC tasks receive no channel configuration)",
+		},
+	})
+}
